@@ -75,6 +75,9 @@ func ktType(name string) common.Hash {
 }
 func ktVal(v string) []byte { return []byte("val-" + v) }
 
+// ktOff maps an offset of the model to the operand: values >= 1000 are class codes (2^31 ... 2^256-1, see codec.go)
+func ktOff(o int) *uint256.Int { return uint256.MustFromBig(opnd(o)) }
+
 // ktDump is every answer the exported query API gives about the keys the history mentions
 // plus a few it does not: used for "modifies nothing".
 func ktDump(t *vm.Tracer, h *ktHistory) string {
@@ -209,11 +212,11 @@ func ktRun(h *ktHistory) (out []ktMismatch) {
 		var err error
 		switch o.Op {
 		case "regtop":
-			err = t.SaveStateKey(ktAcct(o.Acct), nil, uint256.NewInt(uint64(o.Slot)), uint256.NewInt(uint64(o.Off)), ktType(o.Type), common.Hash{}, []byte(o.Name))
+			err = t.SaveStateKey(ktAcct(o.Acct), nil, uint256.NewInt(uint64(o.Slot)), ktOff(o.Off), ktType(o.Type), common.Hash{}, []byte(o.Name))
 		case "regnested":
-			err = t.SaveStateKey(ktAcct(o.Acct), uint256.NewInt(uint64(o.PSlot)), uint256.NewInt(uint64(o.Slot)), uint256.NewInt(uint64(o.Off)), ktType(o.Type), ktType(o.PType), []byte(o.Name))
+			err = t.SaveStateKey(ktAcct(o.Acct), uint256.NewInt(uint64(o.PSlot)), uint256.NewInt(uint64(o.Slot)), ktOff(o.Off), ktType(o.Type), ktType(o.PType), []byte(o.Name))
 		case "change":
-			err = t.SaveStateChange(ktAcct(o.Acct), uint256.NewInt(uint64(o.Slot)), uint256.NewInt(uint64(o.Off)), ktType(o.Type), ktVal(o.Val))
+			err = t.SaveStateChange(ktAcct(o.Acct), uint256.NewInt(uint64(o.Slot)), ktOff(o.Off), ktType(o.Type), ktVal(o.Val))
 		case "enter":
 			to := ktAcct("callee")
 			t.SaveCall(ktAcct("caller"), &to, nil, uint256.NewInt(0), uint256.NewInt(1000))
